@@ -217,6 +217,33 @@ func genC16(e *emitter, tier string, seed uint64) {
 			e.count("enc:invalid-utf8")
 		}
 	}
+	// long names through the one-shot API: transform.String works with 128-byte chunks, so only
+	// names beyond that size exercise the ErrShortDst / ErrShortSrc paths of the library's own loop
+	for i := 0; i < nRand/20; i++ {
+		var sb strings.Builder
+		for sb.Len() < 100+r.intn(400) {
+			switch r.intn(4) {
+			case 0:
+				sb.WriteString(strings.Repeat("a", 1+r.intn(130)))
+			case 1:
+				sb.WriteString(c16RandString(r, 1+r.intn(6)))
+			case 2:
+				sb.WriteString(strings.Repeat(string(pick(r, []rune{0xe9, 0x20ac, 0x1f600, '&'})), 1+r.intn(70)))
+			default:
+				sb.WriteString("&")
+			}
+		}
+		s := sb.String()
+		c16Enc(e, s)
+		e.count("enc:long")
+		enc, _ := utf7.Encoding.NewEncoder().String(s)
+		if r.chance(1, 2) {
+			c16Dec(e, enc)
+		} else {
+			c16Dec(e, c16Mutate(r, enc))
+		}
+		e.count("dec:long")
+	}
 	// streaming: all (reveal, cap) schedules are drawn from 1..8 (plus 0 reveals)
 	for i := 0; i < nStream; i++ {
 		s := c16RandString(r, 1+r.intn(6))
